@@ -84,6 +84,11 @@ def build_lib(outdir, name, cc, extra, incdir, prefix=None, rename_sections=Fals
                 parts = line.split()
                 if len(parts) == 3:
                     f.write("%s %s%s\n" % (parts[2], prefix, parts[2]))
+            # the reference copy keeps the *default allocator binding* (H3_MEMORY(x) = x) but its libc
+            # allocator calls are routed through a shim (heap.cc: refalloc_*) that zero-fills, never fails and
+            # tolerates bad frees, so that the reference is deterministic even for a defective tree
+            for fn in ("malloc", "calloc", "realloc", "free"):
+                f.write("%s refalloc_%s\n" % (fn, fn))
         run(["objcopy", "--redefine-syms=" + mapping, rel])
     if rename_sections:
         # library-owned writable static storage goes onto its own pages (§2.5)
@@ -146,7 +151,9 @@ def build(variant, outdir):
             src = os.path.join(od, nm + ".c")
             with open(src, "w") as f:
                 f.write('__attribute__((section("h3wdata"), aligned(4096))) char h3w_%s_data[4096] = {1};\n' % nm)
-                f.write('__attribute__((section("h3wbss"), aligned(4096))) char h3w_%s_bss[4096];\n' % nm)
+                # "aw",@nobits# : the trailing '#' comments out gcc's own flags, so the pad is NOBITS
+                # like the library's renamed .bss and the linker merges them into one output section
+                f.write('__attribute__((section("h3wbss,\\"aw\\",@nobits#"), aligned(4096))) char h3w_%s_bss[4096];\n' % nm)
             o = os.path.join(od, nm + ".o")
             pads.append(o)
             jobs.append(["gcc", "-c", "-fno-pic", src, "-o", o])
@@ -161,6 +168,11 @@ def build(variant, outdir):
     if asan:
         link += ["-fsanitize=address,undefined"]
     run(link)
+    if cov:
+        secs = run(["readelf", "-S", "-W", exe])
+        for name in ("h3wdata", "h3wbss"):
+            if len(re.findall(r"\]\s+%s\s" % name, secs)) != 1:
+                raise BuildError("write-trap layout: expected exactly one output section %s\n%s" % (name, secs))
     with open(exe + ".syms", "w") as f:
         f.write(run(["nm", "-n", "--defined-only", exe]))
     return exe, time.time() - t0
